@@ -75,6 +75,64 @@ CHECKS = {
     note=TB + "Address and hash-seed independence of the real code is established by execution, not proof.",
     technique="Coq proof (store invariant) + history correspondence + multi-process determinism runs",
     ref="4 C12"),
+
+ "C06": dict(
+    text="PROOF (coq/props/C06.v): infer_sound_<op> for every hand-written inference routine (ArrayFeatureExtractor, Binarizer, "
+         "CategoryMapper, Imputer, OneHotEncoder, Scaler, TreeEnsembleRegressor, Compress, repaired Loop merge): runtime values given by a "
+         "documentation-derived runtime specification conform to the inferred type, for all shapes and all sizes of unknown dims; "
+         "refutations with witnesses for LinearRegressor, Normalizer, TreeEnsembleClassifier, the pinned Loop patch and the first planned "
+         "repair; strip_dims / inline types sound. CORRESPONDENCE: real constructors vs model on generated types x attributes. ORACLE: "
+         "onnxruntime output dtype/shape vs rt_spec and vs Var.type over sizes {0..3}; random programs exposing every Var.",
+    note=TB + "Assumed: rt_spec describes onnxruntime (validated every run). Operators typed by ONNX's own inference are validated only.",
+    technique="Coq proof (per-routine soundness vs runtime shape spec) + constructor correspondence + onnxruntime conformance oracle",
+    ref="4 C06"),
+ "C08": dict(
+    text="PROOF (coq/props/C08.v): argument binding of the inlined callable (positional in input order, keywords, defaults; missing / "
+         "duplicated / unknown / surplus -> TypeError; refutation of the pinned zip-truncation), type check at the boundary, declared "
+         "output types; every emitted inlined block is the foreign graph under a functional renaming injective on internal names "
+         "(validated-sound), disjoint from all other names (C02). CORRESPONDENCE: binding of random calling forms vs bind_args; exact "
+         "rendering of models built around spox-built and hand-built corner models (initializers, sparse, defaults, pass-through, "
+         "subgraphs capturing outer values, empty optionals, custom domain, hostile names), once/twice/inside If/chained. ORACLE: "
+         "onnxruntime on m vs on the model built around inline(m); bytes of m unchanged.",
+    note=TB + "Assumed: onnxruntime(m) is the meaning of m; onnx.version_converter preserves meaning (blocks that are converted are "
+         "judged by the semantic oracle only). Semantic invariance under the renaming is argued from the alpha check, not proved end-to-end.",
+    technique="Coq proof (binding function, renaming validator) + exact emission correspondence + ORT(m) vs ORT(build(inline m)) oracle",
+    ref="4 C08"),
+ "C10": dict(
+    text="PROOF (coq/props/C10.v): decode(encode t) = t for all 26 element types, shapes and payloads (bit patterns; induction over "
+         "payloads); attribute kind checking; captured-at-call for every caller-side mutation history (heap model, privacy invariant); "
+         "characterisation + refutation of the pinned lossy encodings. CORRESPONDENCE: TensorProto wire fields bit-for-bit, attribute "
+         "classes x values, mutation histories. ORACLE: to_array / Var.type / _get_value / onnxruntime vs snapshot before the call.",
+    note=TB + "Assumed: the make_tensor packing table (validated per element type on every run, exhaustively for <=16-bit types).",
+    technique="Coq proof (codec round trip, heap aliasing invariant) + bit-exact correspondence",
+    ref="4 C10"),
+ "C13": dict(
+    text="PROOF (coq/props/C13.v): ONNX round trip identity and injectivity; spelling canonicity as a forallb over a table regenerated "
+         "from the tree each run; subtype_exact (compatible iff a common populated runtime value exists), structural corollaries; "
+         "broadcast exact on constants, sound, raises iff impossible (lifting one-axis lemmas over ranks). CORRESPONDENCE: EXHAUSTIVE over "
+         "a bounded domain enumerated inside Coq by the same index functions (72,989 types, 401^2 shape pairs, type pairs) via row "
+         "digests. ORACLE: numpy.broadcast_shapes, brute-force common-value search, real inline boundary.",
+    note=TB + "hash is oracle-only; exhaustive for the stated bounded domain.",
+    technique="Coq proof + exhaustive digest correspondence over a bounded domain + regenerated spelling table",
+    ref="4 C13"),
+ "C14": dict(
+    text="PROOF (coq/props/C14.v): exactly one definition per used (domain, name) incl. functions used only in control-flow bodies or "
+         "other functions; definitions merged only if identically rendered, differing bodies rejected (fold invariant); imports cover "
+         "body requirements; call_means_body (the FunctionProto body is a checked linearisation of the body graph, so C01's theorem "
+         "applies to it, any nesting). CORRESPONDENCE: exact rendering incl. every FunctionProto. ORACLE: onnxruntime vs numpy "
+         "evaluation with calls evaluated through their Python body; function keys; varying bodies must raise.",
+    note=TB + "Assumed: onnxruntime executes FunctionProtos as inlined bodies. Bodies closed over their parameters.",
+    technique="Coq proof + exact correspondence + ORT-vs-numpy oracle",
+    ref="4 C14"),
+ "C17": dict(
+    text="PROOF (coq/props/C17.v): result dtype = numpy's for + - * / // over all operand kinds and settings (finite tables regenerated "
+         "from numpy each run, lifted by forallb_forall); promotion-off TypeErrors; outside-block TypeErrors; integer + - * neg exact "
+         "modulo 2^w for all Z; repaired floordiv = floor division for all in-range operands (fix_floordiv_ok), refutation of the "
+         "truncating Div. CORRESPONDENCE: ~21k cases (dtype, emitted operator tree, error class) compared inside Coq. ORACLE: "
+         "onnxruntime + propagated values vs numpy.",
+    note=TB + "Float arithmetic validated against numpy only; INT_MIN // -1 and zero divisors never executed.",
+    technique="Coq proof (Z arithmetic, regenerated numpy promotion tables) + correspondence + ORT-vs-numpy oracle",
+    ref="4 C17"),
  "C19": dict(
     text="PROOF (coq/props/C19.v): every callback occurs exactly once in the constructor's trace; builds add no call; argument types "
          "as ONNX prescribes for If/Loop/Scan/SequenceMap; output count from results; malformed callbacks -> TypeError; refutations "
